@@ -1,4 +1,40 @@
 """C18 configuration."""
+import collections
+
+
+def _extra(env):
+    """degeneracy figures for the evidence: how many cases succeed, return functions, read files, and how many
+    legitimately hold a dangerous function (handed over by their configuration)"""
+    c = collections.Counter()
+    for cid, case in env["cases"].items():
+        a = env["results"].get(cid, "missing")
+        c["mode:" + case["payload"][0]] += 1
+        if a.startswith("ok|"):
+            c["ok"] += 1
+            f = dict(x.split("=", 1) for x in a.split("|")[1:] if "=" in x)
+            names = [n for n in f.get("names", "").split(",") if n]
+            if names:
+                c["ok_returning_natives"] += 1
+            if any(n.split("$")[0] in ("file", "get", "post", "exec") for n in names):
+                c["ok_holding_dangerous_function_given_by_config"] += 1
+            if f.get("reads"):
+                c["ok_with_file_reads"] += 1
+            if f.get("confined") != "yes":
+                c["not_confined"] += 1
+        elif a.startswith("fail"):
+            c["fail"] += 1
+            if a != "fail|reads=":
+                c["fail_after_file_reads"] += 1
+        else:
+            c["other:" + a[:20]] += 1
+        src = case["payload"][2]
+        for tag, needle in (("uses_eval_value", "eval.value"), ("uses_import", "//{./"), ("uses_macro", "{:(@grammar"),
+                            ("nested_eval", "\\\"")):
+            if needle in src:
+                c[tag] += 1
+    return dict(coverage=dict(c18_case_mix=dict(c)))
+
+
 PROP = dict(
     quick_n=2000, thorough_n=60000,
     trusted_base=[
@@ -35,4 +71,5 @@ PROP = dict(
            "syntax.stdOsSafeAttrs", "syntax.stdOsUnsafeAttrs", "syntax.stdNet", "syntax.stdDeprecated", "syntax.toDecoderTuple",
            "syntax.stdOsFile", "rel.Closure.CallAll", "rel.Function.Eval", "rel.Call"],
     env={"HARNESS_TIMEOUT_MS": "20000", "GOGC": "400"},
+    extra=_extra,
 )
